@@ -68,6 +68,8 @@ class AcAbilityRequest(comms.Message):
 
 
 _STRUCT = struct.Struct("!BB16sBBBBBBBB")
+# The following length counts the bytes after the AC number and the length itself.
+_FOLLOWING_LENGTH_OFFSET = 2
 
 
 class AcAbilityEncoder(
@@ -181,17 +183,17 @@ class AcAbilityDecoder(
             )
 
         # Otherwise decode ability information for one or more ACs:
-        if header.message_length % _STRUCT.size != 0:
-            raise comms.DecodeError(
-                f"Data length ({header.message_length}) is not a multiple of "
-                f"AC Ability information length ({_STRUCT.size})"
-            )
-
         ac_abilities: list[AcAbility] = []
-        for _ in range(header.message_length // _STRUCT.size):
+        offset = 0
+        while offset < header.message_length:
+            if header.message_length - offset < _STRUCT.size:
+                raise comms.DecodeError(
+                    f"Data length ({header.message_length}) leaves an incomplete "
+                    f"AC Ability record at offset {offset}"
+                )
             (
                 ac_number,
-                _,  # Following length
+                following_length,
                 ac_name_raw,
                 start_zone,
                 zone_count,
@@ -201,8 +203,15 @@ class AcAbilityDecoder(
                 max_cool_set_point,
                 min_heat_set_point,
                 max_heat_set_point,
-            ) = _STRUCT.unpack_from(buffer)
-            buffer = buffer[_STRUCT.size :]
+            ) = _STRUCT.unpack_from(buffer, offset)
+            if following_length < _STRUCT.size - _FOLLOWING_LENGTH_OFFSET:
+                raise comms.DecodeError(
+                    f"AC Ability following length ({following_length}) < "
+                    f"known length ({_STRUCT.size - _FOLLOWING_LENGTH_OFFSET})"
+                )
+            # The record says how long it is. Anything after the fields known
+            # here (a later version of the protocol) is skipped.
+            offset += _FOLLOWING_LENGTH_OFFSET + following_length
 
             ac_abilities.append(
                 AcAbility(
@@ -219,9 +228,14 @@ class AcAbilityDecoder(
                 )
             )
 
+        if offset != header.message_length:
+            raise comms.DecodeError(
+                f"AC Ability decoded {offset} bytes out of {header.message_length}"
+            )
+
         return comms.MessageDecodeResult(
             message=AcAbilityMessage(ac_abilities=ac_abilities),
-            remaining=buffer,
+            remaining=buffer[offset:],
         )
 
     def _decode_ac_mode_support(self, byte23: int) -> Mapping[AcModeControl, bool]:
